@@ -172,7 +172,11 @@ FParts(prog, ps, i, st, acc, dummy) ==
     IF i > Len(ps) THEN V(st, Str(acc))
     ELSE IF ps[i].k = "s" THEN FParts(prog, ps, i + 1, st, acc \o ps[i].v, dummy)
     ELSE LET r == Ev(prog, ps[i].e, st) IN
-         IF r.k # "v" THEN r ELSE FParts(prog, ps, i + 1, r.st, acc \o ToStr(ps[i].ty, r.v), dummy)
+         IF r.k # "v" THEN r
+         \* a value of the host type is converted by the host's to_string, called as soon as the part is evaluated
+         ELSE IF ps[i].ty = "Tr"
+              THEN FParts(prog, ps, i + 1, Log(r.st, <<"trstr", r.v.tr>>), acc \o <<84>> \o DecStr("u32", FromNat(r.v.tr, 4)), dummy)
+         ELSE FParts(prog, ps, i + 1, r.st, acc \o ToStr(ps[i].ty, r.v), dummy)
 
 Ev(prog, e, st) ==
     CASE e.k = "lit" -> V(st, e.v)
